@@ -96,4 +96,21 @@ theorem reinclude_repaired :
     translateAbs (lexRunN (initN 5) p).lex.abs (lexFinish (lexRunN (initN 5) (p ++ q)).lex).fi = some (3, 2) ∧
     (lexRunN (initN 5) (p ++ q)).tbl = [5, 7, 7] := by decide
 
+/-- `dump_trace`'s return value BEFORE the fix: the name was taken from `p->ob` (the object register saved in the
+    element that opens the `heart_beat` frame = the caller's object), so a heart beat called by the driver gave 0 -/
+def dtRetOld (fnOf : String → Nat → String) : List CsEntry → String → String
+  | e :: e' :: rest, acc =>
+    let acc' := if e.kind % (NV.Gen.C18.frameMask + 1) = NV.Gen.C18.frameFunction ∧ fnOf e'.prog e.tableIndex = "heart_beat"
+                then (if e.ob = "-" then "0" else e.ob) else acc
+    dtRetOld fnOf (e' :: rest) acc'
+  | _, acc => acc
+
+/-- the control stack dumped from the real driver in case `again-hb-2` (first two frames): the driver calls
+    `heart_beat` (slot 9 of m.c) of object m, which calls `go`; old code: 0, repaired code: the object's name -/
+theorem heart_beat_ret_before_fix :
+    let w : World := { fns := [("m.c", ["a", "b", "c", "d", "e", "go", "g", "h", "i", "heart_beat"])] }
+    let cs : List CsEntry := [⟨0, 9, "-", "-", -1⟩, ⟨0, 5, "m.c", "m", 83⟩]
+    dtRetOld w.fnName cs "0" = "0" ∧ dumpTraceRet w { cs := cs, cur := ⟨"m.c", "m", 141⟩ } = "m" := by
+  decide
+
 end NV.C18
